@@ -495,14 +495,20 @@ class Interp:
             return
         box = ms.selected
         if uid is None and "FLAGS" in items:
-            # cell not yet bound to a uid for this session: resolve through the
-            # model when the view is in step with it, else forget what we knew
-            if box is not None and not box.uncertain and self.view_synced(sess, box):
-                uid = box.msgs[n - 1].uid
-            if uid is None:
-                ms.know = {}
+            # cell not yet bound to a uid for this session. It can only be resolved (by position,
+            # through the model) once the whole response is in: an EXPUNGE later in the same flush
+            # means this number was from before it, even if view and model have the same length now
+            ms.know = {}
+            if isinstance(items["FLAGS"], list):
+                pend = getattr(sess, "_unresolved_flags", None)
+                if pend is None:
+                    pend = sess._unresolved_flags = []
+                pend.append((n, norm_flags(items["FLAGS"])))
         if "FLAGS" in items and isinstance(items["FLAGS"], list) and uid is not None:
             ms.know[uid] = norm_flags(items["FLAGS"])
+            d_ = getattr(sess, "_direct_uids", None)
+            if d_ is not None:
+                d_.add(uid)
             fl = {canon_flag(x) for x in items["FLAGS"]}
             self.C("c04_seen_unseen")
             if ("unseen" in fl) == ("\\seen" in fl) and "unseen" in fl:
@@ -1005,7 +1011,17 @@ class Interp:
             r = await sess.command(line, **kw)
             ms.dead = True
             return r
+        sess._unresolved_flags = []
+        sess._direct_uids = set()
         r = await sess.command(line, **kw)
+        pend, sess._unresolved_flags = getattr(sess, "_unresolved_flags", []), []
+        direct_, sess._direct_uids = sess._direct_uids, None
+        if pend and r.status is not None and not any(u.kind == "EXPUNGE" for u in r.untagged):
+            box_ = ms.selected
+            if box_ is not None and not box_.uncertain and sess.view is not None and self.view_synced(sess, box_):
+                for n_, fl_ in pend:
+                    if 1 <= n_ <= len(box_.msgs) and box_.msgs[n_ - 1].uid is not None and box_.msgs[n_ - 1].uid not in direct_:
+                        ms.know[box_.msgs[n_ - 1].uid] = fl_
         text = line if isinstance(line, str) else line[:100].decode("latin-1")
         self.session_gone(sess, ms, r, text)
         self.check_prompt(sess, r, text)
